@@ -359,6 +359,9 @@ def extract(text, spec):
                     end = None
                     while k < hi:
                         s = toks[k].s
+                        if s == "{" and pt[0] in ("const", "static", "type"):
+                            k = match_close(toks, k) + 1
+                            continue
                         if s == "{" :
                             end = match_close(toks, k)
                             break
@@ -545,6 +548,10 @@ RULES = {
     "R12b": Rule("R12b", "V.iter().position(|&d| d != 0) -> __pos_nz(&V)",
                  "$$v . iter ( ) . position ( | & $d | $d != 0 )",
                  "__pos_nz ( & $$v )", guard=lambda e: e["$$v"] and all(t not in (";", "=", "{", "}", ",") for t in e["$$v"])),
+    # visibility of a const item (no effect on behaviour; Verus treats `pub const` bodies as public spec)
+    "R9": Rule("R9", "pub const N: T = E; -> const N: T = E;", "pub const $n : $$t = $$e ;", "const $n : $$t = $$e ;"),
+    # Verus spelling of an exec-only constant
+    "R13": Rule("R13", "const N: T = E; -> exec const N: T { E }", "const $n : $$t = $$e ;", "exec const $n : $$t { $$e }"),
     "R4b": Rule("R4b", "for (a, &b) in I { S } -> for (a, b_r__) in I { let b = *b_r__; S }",
                 "for ( $a , & $b ) in $$i { $$s }",
                 "for ( $a , b_r__ ) in $$i { let $b = * b_r__ ; $$s }"),
